@@ -647,6 +647,7 @@ Section WithCore.
       - destruct (lookup _ _ _ _ _ st self) as [[]|]; try discriminate.
         destruct (nth_error ms idx); try discriminate.
         destruct (motif_part _ _ _ _ _ m which); [apply Hstore|]; discriminate.
+      - destruct (lookup _ _ _ _ _ st self); discriminate.
     Qed.
   End Total.
 
